@@ -285,9 +285,32 @@ type c18Result struct {
 }
 
 // c18RunOne queues attrs a for all prefixes on a fresh session, flushes and judges the stream.
+// c18InjectConn models the session's other writer: the FSM goroutine sends its KEEPALIVEs on the same connection
+// at any time, i.e. between any two Write calls of the update sender. After every `every`-th Write of the sender a
+// KEEPALIVE is written to the connection. (A sender that hands a message to the connection in more than one
+// Write gets it torn apart.)
+type c18InjectConn struct {
+	*kit.Conn
+	every, n int
+}
+
+func (c *c18InjectConn) Write(b []byte) (int, error) {
+	n, err := c.Conn.Write(b)
+	c.n++
+	if c.every > 0 && c.n%c.every == 0 {
+		c.Conn.Write(kit.Keepalive())
+	}
+	return n, err
+}
+
+var c18InjectEvery int // set per case by TestVerifC18Packing (0 = no second writer)
+
 func c18RunOne(t c18TB, s c10Sess, a c10Attrs, pfxs []kit.Bits, lenMode int, mode string) c18Result {
 	c10Log.take()
 	rig := c10NewRig(s)
+	if c18InjectEvery > 0 {
+		rig.fsm.con = &c18InjectConn{Conn: rig.conn, every: c18InjectEvery}
+	}
 	queued := make(map[kit.Bits]int, len(pfxs))
 	for _, p := range pfxs {
 		// a fresh path object per prefix, as the Adj-RIB-In creates them
@@ -441,6 +464,9 @@ func TestVerifC18Packing(t *testing.T) {
 		seed := rapid.Uint64().Draw(t, "pfx_seed")
 		pfxs := c18Prefixes(s.width(), n, seed, lenMode)
 		mode := rapid.SampledFrom([]string{"sender-loop", "sender-loop-reverse", "end-of-rib"}).Draw(t, "flush")
+		c18InjectEvery = rapid.SampledFrom([]int{0, 0, 1, 1, 2, 3}).Draw(t, "keepalive_after_every_nth_write")
+		defer func() { c18InjectEvery = 0 }()
+		c.ClassIf(c18InjectEvery > 0, "keepalives_between_sender_writes")
 		c.Logf("session %v", s)
 		c.Logf("attrs %v (estimated wire size <= %d) padding sweep 0..%d", a, estimate, sweep-1)
 		c.Logf("prefixes n=%d len_mode=%d seed=%#x first=%v flush=%s", len(pfxs), lenMode, seed, pfxs[0], mode)
